@@ -8,6 +8,7 @@ CONFIGS = {
     "asan": {"flags": COMMON_ASAN, "nosan_flags": ["-O1", "-g1"], "ldflags": ["-fsanitize=address,undefined"], "workers": 8},
     "asan-avx": {"flags": ["-O3", "-mavx2", "-g1", "-fsanitize=address,alignment,bounds,null,unreachable,vla-bound",
                            "-fno-sanitize-recover=all"], "nosan_flags": ["-O1", "-g1"], "ldflags": ["-fsanitize=address,undefined"], "workers": 8},
+    "ubsan": {"flags": ["-O1", "-g1", "-fsanitize=undefined", "-fno-sanitize-recover=all"], "nosan_flags": ["-O1", "-g1"], "ldflags": ["-fsanitize=undefined"], "workers": 16},
     "tsan": {"flags": ["-O1", "-g1", "-fsanitize=thread"], "nosan_flags": ["-O1", "-g1"], "ldflags": ["-fsanitize=thread", "-rdynamic"], "workers": 16},
 }
 
@@ -71,7 +72,7 @@ PROPS = {
         "assumptions": ["only sequentially consistent interleavings at atomic-operation granularity are explored (no weak-memory or compiler reordering)",
                         "a spurious compare_exchange_weak failure leaves 'expected' equal to the current value"],
         "batches": {
-            "quick": [{"engine": "cachesim", "config": "plain", "runs": 60000}],
+            "quick": [{"engine": "cachesim", "config": "plain", "runs": 200000}, {"engine": "cachesim", "config": "asan", "runs": 20000, "base": 200000}],
             "thorough": [{"engine": "cachesim", "config": "plain", "runs": 3000000, "deadline": 1200},
                          {"engine": "cachesim", "config": "asan", "runs": 300000, "deadline": 600, "base": 3000000}],
         },
@@ -111,7 +112,7 @@ PROPS["C09"] = vec_prop("The first 22680 run indices enumerate {=,+=,-=,construc
      {"engine": "vecsim", "config": "plain", "runs": 4000000, "base": 1500000, "deadline": 400}])
 PROPS["C14"] = vec_prop("The first run indices enumerate the bounded table of argument faults (20 ordered dimension pairs x 13 binary entry points (incl. evolution of an expression by a mismatched operator) x 2 storage kinds, and the "
                         "constructor/factory window); later indices place argument faults inside random histories (40% of operations).",
-    [{"engine": "vecsim", "config": "asan", "runs": 30000, "deadline": 80}],
+    [{"engine": "vecsim", "config": "asan", "runs": 60000, "deadline": 80}],
     [{"engine": "vecsim", "config": "asan", "runs": 1500000, "deadline": 1200}, {"engine": "vecsim", "config": "asan-avx", "runs": 300000, "deadline": 400}],
     level="fault_enumeration")
 PROPS["C15"] = vec_prop("Profile mixes everything, including throwing operations, queries through the GSL-backed matrix functions, bursts and cache clearing; verdict = "
@@ -120,7 +121,7 @@ PROPS["C15"] = vec_prop("Profile mixes everything, including throwing operations
     [{"engine": "vecsim", "config": "asan", "runs": 2000000, "deadline": 1000}, {"engine": "vecsim", "config": "asan-avx", "runs": 1000000, "deadline": 600}])
 PROPS["C16"] = vec_prop("Every history (2-12 operations) is first run fault free to count the allocations of each operation; then it is re-run once for every (operation, k) "
                         "with exactly that allocation throwing std::bad_alloc (evaluations counts these executions).",
-    [{"engine": "vecsim", "config": "asan", "runs": 4000, "deadline": 90}],
+    [{"engine": "vecsim", "config": "asan", "runs": 12000, "deadline": 90}],
     [{"engine": "vecsim", "config": "asan", "runs": 200000, "deadline": 1500}],
     level="fault_enumeration")
 
@@ -150,16 +151,17 @@ def sol_prop(extra, quick, thorough):
 
 PROPS["C04"] = sol_prop("Profile: 1-3 Evolve calls per run; every right-hand-side evaluation is compared with the dense documented equation at the stepper's (buffer, time) and "
                         "the final state with the closed form.",
-    [{"engine": "solversim", "config": "asan", "runs": 2500, "deadline": 80}],
+    [{"engine": "solversim", "config": "asan", "runs": 5000, "deadline": 90}],
     [{"engine": "solversim", "config": "asan", "runs": 100000, "deadline": 1500}, {"engine": "solversim", "config": "plain", "runs": 400000, "base": 100000, "deadline": 900}])
 PROPS["C05"] = sol_prop("Profile: histories of queries interleaved with Evolve, re-initialisation, moves and a second solver.",
-    [{"engine": "solversim", "config": "asan", "runs": 6000, "deadline": 80}],
+    [{"engine": "solversim", "config": "asan", "runs": 10000, "deadline": 90}],
     [{"engine": "solversim", "config": "asan", "runs": 300000, "deadline": 1500}, {"engine": "solversim", "config": "plain", "runs": 1000000, "base": 300000, "deadline": 600}])
 PROPS["C10"] = sol_prop("Profile: up to 8 segments over the full operation alphabet.",
-    [{"engine": "solversim", "config": "asan", "runs": 2500, "deadline": 80}],
+    [{"engine": "solversim", "config": "asan", "runs": 5000, "deadline": 90}],
     [{"engine": "solversim", "config": "asan", "runs": 100000, "deadline": 1500}, {"engine": "solversim", "config": "plain", "runs": 400000, "base": 100000, "deadline": 900}])
 PROPS["C15"]["batches"]["quick"].append({"engine": "solversim", "config": "asan", "runs": 1500, "deadline": 40, "prop": "C15"})
 PROPS["C15"]["batches"]["thorough"].append({"engine": "solversim", "config": "asan", "runs": 100000, "deadline": 900, "prop": "C15"})
+PROPS["C15"]["batches"]["thorough"].append({"engine": "vecsim", "config": "ubsan", "runs": 2000000, "base": 3000000, "deadline": 600})   # one batch under the full UBSan check set
 PROPS["C15"]["real_vs_stub"] = {"real": VEC_REAL_STUB["real"] + SOL_REAL_STUB["real"], "simulated": VEC_REAL_STUB["simulated"] + SOL_REAL_STUB["simulated"]}
 
 
@@ -178,7 +180,7 @@ PROPS["C07"] = {
                                    "the call history (seeded workload)"]},
     "assumptions": ["inputs whose exponential overflows are not generated", "reference exp(A): scaling-and-squaring Taylor series in __float128 (libgcc soft float), trusted",
                     "mu_2 is computed with gsl_eigen_herm on the Hermitian part (trusted)", "GSL error handler off"],
-    "batches": {"quick": [{"engine": "expsim", "config": "asan", "runs": 12000, "deadline": 80}],
+    "batches": {"quick": [{"engine": "expsim", "config": "asan", "runs": 30000, "deadline": 90}],
                 "thorough": [{"engine": "expsim", "config": "asan", "runs": 400000, "deadline": 1200}, {"engine": "expsim", "config": "plain", "runs": 2000000, "base": 400000, "deadline": 900}]},
 }
 
@@ -199,7 +201,7 @@ PROPS["C18"] = {
                                    "the shared solver's H0 callback (S5, a yield point)"]},
     "assumptions": ["races inside uninstrumented libgsl on its own globals (e.g. gsl_rng_env_setup) are not visible", "only sequentially consistent, serialised executions are explored",
                     "hand-over of a vector between threads is synchronised by the user (a mutex-protected channel), as any real program must"],
-    "batches": {"quick": [{"engine": "threadsim", "config": "tsan", "runs": 6000, "deadline": 70}, {"engine": "threadsim", "config": "asan", "runs": 4000, "deadline": 50}],
+    "batches": {"quick": [{"engine": "threadsim", "config": "tsan", "runs": 12000, "deadline": 70}, {"engine": "threadsim", "config": "asan", "runs": 6000, "deadline": 50}],
                 "thorough": [{"engine": "threadsim", "config": "tsan", "runs": 1000000, "deadline": 1200}, {"engine": "threadsim", "config": "asan", "runs": 300000, "deadline": 900},
                              {"engine": "threadsim", "config": "plain", "runs": 1000000, "base": 1000000, "deadline": 600}]},
 }
